@@ -6,6 +6,8 @@
 ID="$1"; SUF="${2:-}"
 OUT="/tmp/seed-$ID$SUF-out"; WT="/tmp/sv-$ID$SUF"
 VER="$(cd "$(dirname "$0")/.." && pwd)"
+# re-check mode: no fresh deliverables → use the stored seeded change
+[ -f "$OUT/patch.diff" ] || OUT="$VER/seeded/$ID$SUF"
 [ -f "$OUT/patch.diff" ] && [ -f "$OUT/demo.py" ] || { echo "missing deliverables in $OUT"; exit 2; }
 git -C /repo worktree remove --force "$WT" 2>/dev/null
 git -C /repo worktree add --detach -q "$WT" HEAD || exit 2
@@ -24,7 +26,7 @@ cd "$VER" || exit 2
 VERIF_REPO="$WT" VERIF_SHRINK_S=10 timeout 1500 ./check "$ID" --tier quick > "$WT/check.log" 2>&1; RC_CHECK=$?
 KEYS="$(grep -E '^  family=' "$WT/check.log" | head -3 | tr '\n' ';')"
 mkdir -p "$VER/seeded/$ID$SUF"
-cp "$OUT/patch.diff" "$OUT/demo.py" "$VER/seeded/$ID$SUF/"
+[ "$OUT" = "$VER/seeded/$ID$SUF" ] || cp "$OUT/patch.diff" "$OUT/demo.py" "$VER/seeded/$ID$SUF/"
 /venv/bin/python - "$OUT/meta.json" "$VER/seeded/$ID$SUF/meta.json" <<EOF
 import json, sys
 try:
